@@ -99,6 +99,9 @@ func (p *P) Run(src *tape.Source, trace bool) *core.Result {
 	default:
 		p.batchRun(r, src, ctl, trace)
 	}
+	for _, site := range pool.DupSites() {
+		r.Fail("pool-holds-an-instance-twice", site, fmt.Sprintf("after the history the pool used at %s holds the same object twice: the next two holders would share one instance", site))
+	}
 	ctl.Counts(r.Faults)
 	r.LogHash = src.Hash()
 	return r
@@ -265,6 +268,9 @@ func (p *P) pkgLevel(r *core.Result, src *tape.Source, ctl *pool.Ctl, ctxmsg str
 	ctl.Mode, ctl.Only = pool.AlwaysMiss, nil
 	fresh := run()
 	ctl.Mode, ctl.Only = saveM, saveO
+	for _, site := range pool.DupSites() {
+		r.Fail("pool-holds-an-instance-twice", site, fmt.Sprintf("%s: after the package-level entry points ran, the pool used at %s holds the same object twice: the next two holders would share one instance", ctxmsg, site))
+	}
 	r.Evals++
 	if name, part, diff := probe.Compare(used, fresh); name != "" {
 		entry := name[strings.Index(name, "/")+1:]
